@@ -156,6 +156,11 @@ func (o *objectGoArrayReflect) getOwnPropIdx(idx valueInt) Value {
 }
 
 func (o *objectGoArrayReflect) _putIdx(idx int, v Value, throw bool) bool {
+	if idx >= o.fieldsValue.Len() {
+		// a Go array cannot grow (objectGoSliceReflect grows before calling this)
+		o.val.runtime.typeErrorResult(throw, "Cannot add element %d to a Go array of length %d", idx, o.fieldsValue.Len())
+		return false
+	}
 	cached := o.valueCache.get(idx)
 	if cached != nil {
 		copyReflectValueWrapper(cached)
